@@ -136,6 +136,13 @@ REWRITES = {
         "`with_capacity(n)` goes to a stand-in that is the same constructor plus the precondition `n` is no larger than a collection that already exists (an N argument must not drive an allocation)"),
     "closure4_typed": (r"\|_, (\w+), _, (\w+)\|", r"|_k1: &String, \1: &JsonValue, _k2: &String, \2: &JsonValue|",
         "IndexMap::sort_by comparator closure: parameter patterns `_` are unnamed (unused) parameters; the parameter types are the ones of IndexMap<String, JsonValue>::sort_by"),
+    "shadow_param": (r"(\(&self, context)(: &Context\))|(let mut context = )context(\.with_inupt\()context(\.input\(\))",
+        lambda m: (m.group(1) + "_in" + m.group(2)) if m.group(1) else (m.group(3) + "context_in" + m.group(4) + "context_in" + m.group(5)),
+        "alpha-renaming: the parameter `context`, which the first statement shadows with a local of the same name, is called `context_in` (loop invariants must be able to name both)"),
+    "filter_map_collect": (r"(\w+)\s*\.into_iter\(\)\s*\.filter_map\(", r"vitc::vfilter_map(\1, ",
+        "`v.into_iter().filter_map(f)` (followed by .collect()) is the function vfilter_map(v, f) with the assumed std contract"),
+    "filter_collect": (r"(\w+)\s*\.into_iter\(\)\s*\.filter\(", r"vitc::vfilter(\1, ",
+        "`v.into_iter().filter(f)` (followed by .collect()) is the function vfilter(v, f) with the assumed std contract"),
     "str_to_string": (r"\b(s|str|word|text)\.to_string\(\)", r"vstr::to_string_of(\1)", "&str::to_string() is a String with the same text"),
     "pub_crate": (r"\bpub\(crate\)\s+", r"pub ", "visibility is irrelevant in a single file"),
     "deref_clone": (
